@@ -505,6 +505,11 @@ func init() {
 	externals["github.com/google/go-containerregistry/pkg/v1/validate.Layer"] = func(fr *frame, args []value) value {
 		return iface{}
 	}
+	// k8schain.New assembles registry credentials (pull secrets, cloud
+	// credential helpers): environment. It yields some keychain and no error.
+	externals["github.com/google/go-containerregistry/pkg/authn/k8schain.New"] = func(fr *frame, args []value) value {
+		return tuple{iface{}, iface{}}
+	}
 }
 
 func init() {
